@@ -154,7 +154,10 @@ impl HeaderMetadataSpec {
         // metadata smaller than 8-bits is special in that more than one metadata value may be included in one AtomicU8 operation, and extra shift and mask is required
         let res: T = if self.num_of_bits < 8 {
             #[cfg(mmtk_verif)]
-            crate::util::verif::rt::yield_point(crate::util::verif::rt::site::RAW_LOAD);
+            crate::util::verif::rt::yield_point_at(
+                crate::util::verif::rt::site::RAW_LOAD,
+                self.meta_addr(header).as_usize(),
+            );
             let byte_val = unsafe {
                 if let Some(order) = atomic_ordering {
                     (self.meta_addr(header)).atomic_load::<AtomicU8>(order)
@@ -236,6 +239,11 @@ impl HeaderMetadataSpec {
                 unsafe {
                     let old_byte_val = byte_addr.load::<u8>();
                     let new_byte_val = self.set_bits_to_u8(old_byte_val, val_u8);
+                    #[cfg(mmtk_verif)]
+                    crate::util::verif::rt::yield_point_at(
+                        crate::util::verif::rt::site::RACE_RMW,
+                        byte_addr.as_usize(),
+                    );
                     byte_addr.store::<u8>(new_byte_val);
                 }
             }
@@ -283,14 +291,20 @@ impl HeaderMetadataSpec {
             let byte_addr = self.meta_addr(header);
             unsafe {
                 #[cfg(mmtk_verif)]
-                crate::util::verif::rt::yield_point(crate::util::verif::rt::site::RAW_LOAD);
+                crate::util::verif::rt::yield_point_at(
+                    crate::util::verif::rt::site::RAW_LOAD,
+                    byte_addr.as_usize(),
+                );
                 let real_old_byte = byte_addr.atomic_load::<AtomicU8>(success_order);
                 let expected_old_byte =
                     self.set_bits_to_u8(real_old_byte, old_metadata.to_u8().unwrap());
                 let expected_new_byte =
                     self.set_bits_to_u8(expected_old_byte, new_metadata.to_u8().unwrap());
                 #[cfg(mmtk_verif)]
-                crate::util::verif::rt::yield_point(crate::util::verif::rt::site::RAW_CAS);
+                crate::util::verif::rt::yield_point_at(
+                    crate::util::verif::rt::site::RAW_CAS,
+                    byte_addr.as_usize(),
+                );
                 byte_addr
                     .compare_exchange::<AtomicU8>(
                         expected_old_byte,
